@@ -171,7 +171,8 @@ Definition mig_kept (a b : state) : bool :=
   seteq (paireq Z.eqb uniteq) (dir_to (mig a)) (dir_to (mig b)).
 
 Definition mig_mismatch (c : mig_case) : bool :=
-  negb (wfb (mc_pre c) && qcoverb (mc_pre c) && govwfb (mc_pre c) && balposb (mc_pre c) && idxallb (mc_pre c)) ||
+  negb (wfb (mc_pre c) && qcoverb (mc_pre c) && govwfb (mc_pre c) && balposb (mc_pre c) && idxallb (mc_pre c) &&
+        invb (mc_pre c)) ||
   match model_step (mc_pre c) (mc_op c), mc_obs c with
   | Ok s', OOk =>
       match mc_op c with
@@ -198,7 +199,7 @@ Fixpoint false_positions (i : Z) (l : list bool) : list Z :=
   match l with [] => [] | b :: r => if b then false_positions (i + 1) r else i :: false_positions (i + 1) r end.
 Definition diag (c : mig_case) : list Z :=
   (if wfb (mc_pre c) then [] else [-2]) ++ (if qcoverb (mc_pre c) then [] else [-3]) ++
-  (if govwfb (mc_pre c) then [] else [-4]) ++
+  (if govwfb (mc_pre c) then [] else [-4]) ++ (if invb (mc_pre c) then [] else [-5]) ++
   match model_step (mc_pre c) (mc_op c), mc_obs c with
   | Ok s', OOk => false_positions 0 (state_cmp s' (mc_post c))
   | Err e, OErr code => if err_code e =? code then false_positions 0 (state_cmp (mc_pre c) (mc_post c)) else [-1; err_code e]
